@@ -175,6 +175,17 @@ def check_hedger(case, ctx):
     sp, un, pay = spot.tolist(), unit.tolist(), payoff.tolist()
     compare_pl(ctx, "C01/hedger/compute_pl", pl_got, sp, un, costs, pay, True, dtype_name, H, Tn)
     compare_pl(ctx, "C01/hedger/compute_portfolio", pf_got, sp, un, costs, None, True, dtype_name, H, Tn)
+    # the (deprecated but public) one-call form simulates and evaluates the same identity
+    if case["model"] not in ("recurrent",) and case["sim_seed"] % 4 == 0:
+        with torch.no_grad():
+            with ctx.sut("C01/hedger/compute_pnl"):
+                torch.manual_seed(case["sim_seed"])
+                pnl = hedger.compute_pnl(deriv, hedge=hedge, n_paths=case["n_paths"])
+                again = hedger.compute_pl(deriv, hedge=hedge)
+        same = pnl.shape == again.shape and bool(((pnl == again) | (pnl.isnan() & again.isnan())).all())
+        ctx.check(same and pnl.shape == pl_got.shape and bool(((pnl == pl_got) | (pnl.isnan() & pl_got.isnan())).all()), "C01/hedger/compute_pnl",
+                  "compute_pnl(n_paths, seed) differs from simulate(seed) followed by compute_pl")
+        ctx.cls("compute_pnl:checked")
     nt, multi = _nontrivial_cost(sp, un, costs)
     ctx.nontrivial(nt)
     ctx.cls("model:" + case["model"], "deriv:" + case["deriv"]["type"], "ul:" + case["ul"]["type"],
@@ -189,7 +200,7 @@ SUBS = [
              "scales 1e-3..1e6), cost None/zero/dyadic/decimal per instrument, first-cost flag, pl/terminal_value; "
              "oracle = exact Fraction evaluation of the wealth identity. Non-trivial: some instrument has cost>0 and "
              "both its price and its position vary along a path (so the traded price index is observable).",
-        strategy=lambda tier: pl_case(), examples={"quick": 4000, "thorough": 40000}),
+        strategy=lambda tier: pl_case(), examples={"quick": 8000, "thorough": 80000}),
     Sub("pl_shape_errors", check_shape_errors,
         rule="mismatched unit / payoff shapes must raise RuntimeError; every generated case is non-trivial",
         strategy=lambda tier: shape_error_case(), examples={"quick": 200, "thorough": 1000}),
@@ -198,7 +209,7 @@ SUBS = [
              "model (Linear/MLP/Naked/BlackScholes/WhalleyWilmott/recurrent) x costs x n_paths<=8 x 2..8 steps, simulates "
              "with a drawn torch seed; compute_pl / compute_portfolio compared with the exact identity on stack(h.spot), "
              "compute_hedge, [h.cost], payoff (resp. 0). Non-trivial as in pl_functional.",
-        strategy=lambda tier: scenario(), examples={"quick": 1200, "thorough": 12000}),
+        strategy=lambda tier: scenario(), examples={"quick": 3200, "thorough": 32000}),
 ]
 
 META = {
